@@ -30,7 +30,7 @@ class Balancer:
         except ClaripyBalancerUnsatError:
             self.bounds = {}
             self.sat = False
-        except (BackendError, ClaripyBalancerError):
+        except (BackendError, ClaripyBalancerError, ClaripyOperationError):
             # we cannot make sense of the constraint: that is no information, not an error
             log.debug("Backend or balancer error in balancer.", exc_info=True)
 
